@@ -2356,8 +2356,13 @@ impl Ord for Element {
             (None, None) => {}
         }
 
-        // sort by item name if present
-        if let (Some(name1), Some(name2)) = (self.item_name(), other.item_name()) {
+        // sort by item name if present; like the index: if only one element has a name, then it comes first
+        // (skipping the comparison in that case made the order non-transitive)
+        let (name1, name2) = (self.item_name(), other.item_name());
+        if name1.is_some() != name2.is_some() {
+            return name2.is_some().cmp(&name1.is_some());
+        }
+        if let (Some(name1), Some(name2)) = (name1, name2) {
             // both items have a name - decompose each name into a base and an index
             // this allows for a more natural sorting of indexed items (e.g. "item2" < "item10")
             // a name without a numeric suffix is its own base; (base, index, full name) are compared in this order,
@@ -2379,6 +2384,10 @@ impl Ord for Element {
             .get_sub_element(ElementName::DefinitionRef)
             .and_then(|defref| defref.character_data())
             .and_then(|cdata| cdata.string_value());
+        if definition1.is_some() != definition2.is_some() {
+            // if only one element has a definition reference, then it comes first
+            return definition2.is_some().cmp(&definition1.is_some());
+        }
         if let (Some(def1), Some(def2)) = (definition1, definition2) {
             let result = def1.cmp(&def2);
             if result != Ordering::Equal {
